@@ -131,6 +131,14 @@ FIX_COMMITS = [
     '7cf49d9 fix: pair archive entries with the header file entry they name',
 ]
 
+PROPS['C13'] = dict(
+    level='proof', verus=['c13_evr'],
+    trusted_base=[A_TOOLS, A_EXTRACT, 'compare_version_string (rpmvercmp on two strings) is an UNINTERPRETED function here: its agreement with rpm is NOT decided (first sentence of C13 not claimed: &str pattern-API code, no Verus specifications, Kani did not terminate on 2-byte strings)'],
+    assumptions=['claimed for the SECOND sentence only: EVR = epoch (empty meaning 0), then version, then release; NEVRA = name, then EVR, then arch; and the order laws (reflexive, antisymmetric under swapping, transitive) hold for EVRs whenever they hold for the string comparison (lemma_evr_order is conditional on vercmp being a total preorder)',
+                 "R5: Cow<'a, str> fields are modelled as String (only their text is used)"],
+    explanation='Verbatim bodies of `impl Ord for Evr` and `impl Ord for Nevra`: the result is the lexicographic combination lex3(vercmp(epoch-or-0), vercmp(version), vercmp(release)) resp. lex3(vercmp(name), evr_cmp, vercmp(arch)) for an arbitrary string comparison; lemma_evr_order lifts reflexivity, antisymmetry and transitivity from the string comparison to EVRs.',
+    technique='contract-based deductive verification (Verus) of the EVR/NEVRA comparison structure over an uninterpreted string comparison',
+)
 PROPS['C09'] = dict(
     level='proof', verus=['c09_from_entries', 'c14_writers', 'c07_payload', 'c16_offsets'],
     trusted_base=[A_TOOLS, A_EXTRACT, 'A-LEAF-LINK: IndexData::append contract = K:k_append_* (bounded) on the real function; write_index contract proved in unit c14_writers',
@@ -152,7 +160,6 @@ NOT_APPLICABLE = {
     'C06': 'the claim lives in PackageBuilder::prepare_data/add_data (750 lines over compressor FFI, clock, HashSet, BTreeMap, Path, format!): Verus cannot take the text and CBMC does not finish even on Header::parse alone; the reachable header-codec inverse is claimed under C05/C09',
     'C11': 'relational property over process environments (per-process RandomState seeds, wall clock, TZ) of prepare_data; neither verifier models a second run or HashSet seeding',
     'C12': 'about file-system effects (create_dir_all, File::create following symlinks, symlink): both verifiers treat std::fs as unsupported foreign calls and have no file-system model',
-    'C13': 'compare_version_string is written against &str pattern APIs with closures; Verus has no specifications for them and Kani did not terminate even for two strings of fixed length 2; a byte-level re-implementation would be a model',
     'C19': 'capability grammar is &str code (split_whitespace, find, chars, to_uppercase): same two obstacles as C13',
 }
 # properties not yet wired up are listed as not applicable until their check exists (kept current)
